@@ -29,6 +29,13 @@ type seqThread struct {
 // the "cl.*" events. It also returns the numbers that were drawn but never
 // written (aborted sends).
 func SeqLabels(evs []SendEv, reqLocker interface{}) (labels []string, burned []uint32, note string) {
+	labels, burned, _, note = SeqLabelsT(evs, reqLocker)
+	return
+}
+
+// SeqLabelsT is SeqLabels and also returns the request ids of messages whose sender gave up after
+// it had written at least one chunk (the message stays unfinished on the wire).
+func SeqLabelsT(evs []SendEv, reqLocker interface{}) (labels []string, burned []uint32, truncated []uint32, note string) {
 	threads := map[int64]*seqThread{}
 	renewers := map[int64]bool{}
 	sentOPN, installed := false, false
@@ -122,6 +129,9 @@ func SeqLabels(evs []SendEv, reqLocker interface{}) (labels []string, burned []u
 			if th != nil && !isR {
 				if th.number && th.written < th.cnt {
 					emit("abort %d", th.tid)
+					if th.written > 0 {
+						truncated = append(truncated, ev.U32(0))
+					}
 					if th.written == 0 {
 						// find the number drawn
 						for j := i - 1; j >= 0; j-- {
@@ -173,7 +183,7 @@ func SeqLabels(evs []SendEv, reqLocker interface{}) (labels []string, burned []u
 			}
 		}
 	}
-	return labels, burned, ""
+	return labels, burned, truncated, ""
 }
 
 // WireVerdict is the result of the C11 oracle on the chunks a peer received.
@@ -184,9 +194,19 @@ type WireVerdict struct {
 	Explained bool     // !OK and Sigs explain it
 }
 
+// truncatedReq: request ids of messages their sender abandoned after the first chunk; such a
+// message simply ends, the next one may follow (no chunk of it may come later, though).
+var truncatedReq map[uint32]bool
+
 func wireOffence(w []PeerChunk, virtual map[uint32]bool) string {
+	ended := map[uint32]bool{}
 	for i := 1; i < len(w); i++ {
-		if w[i-1].ChunkType == 'C' && w[i].ReqID != w[i-1].ReqID {
+		if ended[w[i].ReqID] {
+			return fmt.Sprintf("chunk %d (%s) continues a message that was interrupted by another message", i, w[i])
+		}
+		if w[i-1].ChunkType == 'C' && w[i].ReqID != w[i-1].ReqID && truncatedReq[w[i-1].ReqID] {
+			ended[w[i-1].ReqID] = true
+		} else if w[i-1].ChunkType == 'C' && w[i].ReqID != w[i-1].ReqID {
 			return fmt.Sprintf("chunk %d (%s) interrupts the unfinished message of chunk %d (%s)", i, w[i], i-1, w[i-1])
 		}
 		exp := NextSeq(w[i-1].Seq)
@@ -213,6 +233,15 @@ func wireOffence(w []PeerChunk, virtual map[uint32]bool) string {
 //	failed  OPN request chunks that were never answered
 //	abort   numbers in `burned` (counted as if their chunk had been written)
 func CheckWire(wire []PeerChunk, burned []uint32, issued map[uint32]uint32, initTok uint32) WireVerdict {
+	return CheckWireT(wire, burned, nil, issued, initTok)
+}
+
+// CheckWireT is CheckWire with the request ids of messages abandoned by their sender after the first chunk.
+func CheckWireT(wire []PeerChunk, burned []uint32, truncated []uint32, issued map[uint32]uint32, initTok uint32) WireVerdict {
+	truncatedReq = map[uint32]bool{}
+	for _, id := range truncated {
+		truncatedReq[id] = true
+	}
 	v := WireVerdict{OK: true}
 	d := wireOffence(wire, nil)
 	if d == "" {
